@@ -145,6 +145,24 @@ func (t *tr) evCall(c *ast.CallExpr) []Term {
 		return t.havocResults(c)
 	}
 	con.Used = true
+	// `flag abstract_calls k1,k2` on the unit: these callees are over-approximated — any result, may panic,
+	// same frame — and their pre/postconditions are neither required nor used (sound for containment proofs)
+	if t.u.Contract != nil && t.u.Contract.Flags["abstract_calls"] != "" {
+		for _, k := range strings.Split(t.u.Contract.Flags["abstract_calls"], ",") {
+			if strings.TrimSpace(k) == ct.key {
+				abs := *con
+				abs.MayPanic = true
+				abs.Clauses = nil
+				for _, cl := range con.Clauses {
+					if cl.Kind == "modifies" || cl.Kind == "preserves" {
+						abs.Clauses = append(abs.Clauses, cl)
+					}
+				}
+				con = &abs
+				t.V.note("flag abstract_calls on " + t.u.Key + ": " + ct.key + " over-approximated (any result, may panic)")
+			}
+		}
+	}
 	// receiver
 	var recvTerm Term
 	var writeback func()
@@ -477,11 +495,14 @@ func (t *tr) applyContract(con *Contract, ct *callTarget, haveRecv bool, recv Te
 		vars2[fmt.Sprintf("called%d", i)] = cr
 	}
 	sc2 := &specCtx{pkg: pkg, vars: vars2, cur: post, old: pre, where: con.File, qn: qn}
-	for _, kind := range []string{"ensures", "always_ensures"} {
+	for _, kind := range []string{"ensures", "always_ensures", "ghost_ensures"} {
 		for _, cl := range con.clauses(kind) {
 			sc2.where = cl.Where
 			t.assume(t.spec(cl.Expr, sc2))
 		}
+	}
+	if len(con.clauses("ghost_ensures")) > 0 {
+		t.V.note("ghost_ensures on " + con.Key + ": call-history instrumentation (call counter / last result), assumed at call sites")
 	}
 	return res
 }
@@ -580,7 +601,7 @@ func (t *tr) modLoc(l ast.Expr, sc *specCtx) []frameLoc {
 		}
 		if id, ok := x.X.(*ast.Ident); ok {
 			if _, isVar := sc.vars[id.Name]; !isVar {
-				if p := t.V.importedPkg(sc.pkg, id.Name); p != nil {
+				if p := t.V.importedPkg(sc.pkg, id.Name, x.Sel.Name); p != nil {
 					if o, ok := p.Types.Scope().Lookup(x.Sel.Name).(*types.Var); ok {
 						return []frameLoc{{heap: t.globalVar(o), whole: true}}
 					}
